@@ -5,4 +5,4 @@ From Coq Require Import ZArith QArith List Ascii Extraction ExtrOcamlBasic.
 From Inf Require Import base.ExtrBase model.ReadersM.
 Extraction Language OCaml.
 Extraction "extract/c13_model.ml" extr_anchor xyz_read lmp_read polls py_float_ok xyz_wfb lmp_wfb
-  trr_init trr_run trr_finish layout_size.
+  trr_init trr_run trr_finish layout_size trr_sched trr_sched_pcs.
